@@ -649,6 +649,24 @@ def threading(eng: Engine, ctx: Ctx, rid: str, model: DecoderModel):
                 want = key_p if e.term[2][2] == single else ("idx", dict_p, key_p)
                 ctx.check(a0 == want, rid, q, f"first argument of {norm(e.node)[:60]}", expected="the field key for a single field, the definition value pdict[key] for a group", found=show(a0)[:60] if a0 else "-", **eng.loc(f, e.node))
 
+        # the walk is complete: a loop that makes decoder calls (over the keys of a definition, over the repetitions of a group) is not left early -
+        # a `break` / `return` after some key ("nothing more to decode") silently drops the fields that follow
+        for lid_, info_ in se.loop_info.items():
+            if not any(lid_ in e.loops for e in calls):
+                continue
+            brk_ = [st_ for k_, st_ in (info_.get("ends") or []) if k_ == "break"]
+            rets_ = [e for e in se.effects if e.kind == "return" and lid_ in e.loops]
+            why_ = guard_text(brk_[0].guards)[:80] if brk_ else (guard_text(rets_[0].guards)[:80] if rets_ else "")
+            ctx.check(not brk_ and not rets_, rid, q, "walk over the definition is complete", expected="every key / repetition is visited: no break or return inside the loop that makes the decoder calls",
+                      found=f"{len(brk_)} break(s), {len(rets_)} return(s) inside the loop" + (f", taken when {why_}" if why_ else ""), **eng.loc(f, info_.get("node", f.node)))
+        if q != eng.dispatch_routine:
+            # ... and no key is passed over: outside the dispatcher (which tests the KIND of the definition value) a decoder call is not conditional on the key
+            for e in calls:
+                for lid_ in e.loops:
+                    el_ = ("elem", (se.loop_info.get(lid_) or {}).get("iter"), lid_)
+                    skip_ = [(c_, p_) for c_, p_ in e.guards if mentions(c_, lambda s_, el_=el_: s_ == el_)]
+                    if skip_:
+                        ctx.bad(rid, q, f"every key reaches {norm(e.node)[:50]}", expected="the decoder call is made for every key of the walk", found=f"made only when {guard_text(skip_)[:90]}: the other keys of the definition are not decoded", **eng.loc(f, e.node))
         consumed = set()
         ret_terms = [e.term for e in se.effects if e.kind == "return"]
         for e in calls:
